@@ -315,7 +315,7 @@ Proof.
   intros H W L1 L2. unfold rec_init.
   assert (R0 : rinit (fun _ => False) s1 s2).
   { unfold flens, full_lens in L1, L2. injection L1 as ? ? ? ? ?. injection L2 as ? ? ? ? ?.
-    unfold rinit. repeat split; try congruence; try (intros j []).
+    unfold rinit. repeat split; try congruence; try (now intros j []).
     intros j [[]|Hj]. apply W. exact Hj. }
   destruct (fold_rec_init_rel P (seq 0 (f_total fn)) _ s1 s2 H R0) as [H1 R1].
   split; [exact H1|].
@@ -336,7 +336,7 @@ Qed.
 (* the recursion: related states stay related; the set on which beingProcessed agrees only grows *)
 Definition call_spec (call : fstate -> nat -> fstate * res bool) : Prop :=
   forall P s1 s2 a, rsig P s1 s2 -> rstrong s1 s2 ->
-    exists P', (forall j, P j -> P' j) /\
+    exists P' : nat -> Prop, (forall j, P j -> P' j) /\
                rsig P' (fst (call s1 a)) (fst (call s2 a)) /\ rstrong (fst (call s1 a)) (fst (call s2 a)) /\
                snd (call s1 a) = snd (call s2 a).
 
@@ -355,7 +355,7 @@ Proof. intros H. exact H. Qed.
 
 Lemma rec_loop_rel call cur (Hcall : call_spec call) adjs : forall P s1 s2,
   rsig P s1 s2 -> rstrong s1 s2 -> P cur ->
-  exists P', (forall j, P j -> P' j) /\
+  exists P' : nat -> Prop, (forall j, P j -> P' j) /\
     rsig P' (fst (rec_loop NF fn call cur adjs s1)) (fst (rec_loop NF fn call cur adjs s2)) /\
     rstrong (fst (rec_loop NF fn call cur adjs s1)) (fst (rec_loop NF fn call cur adjs s2)) /\
     snd (rec_loop NF fn call cur adjs s1) = snd (rec_loop NF fn call cur adjs s2).
@@ -372,12 +372,12 @@ Proof.
     + destruct (negb (getB (fs_done s2) a)).
       * destruct (Hcall P s1 s2 a H S) as (P1 & HP1 & H1 & S1 & E1).
         destruct (call s1 a) as [c1 r1], (call s2 a) as [c2 r2]. simpl in H1, S1, E1. subst r2.
-        destruct r1 as [[|]| | | | |]; simpl; try (exists P1; auto).
-        destruct (IH P1 (set_bp c1 cur (fadd NF (bpF NF c1 cur) (fmul NF (sigF NF c1 a) (adj_w NF fn a cur))))
-                     (set_bp c2 cur (fadd NF (bpF NF c2 cur) (fmul NF (sigF NF c2 a) (adj_w NF fn a cur)))))
-          as (P2 & HP2 & R); [|exact S1|apply HP1; exact Hc|].
+        destruct r1 as [[|]| | | | |]; simpl; try solve [exists P1; auto].
+        assert (Hpre : rsig P1 (set_bp c1 cur (fadd NF (bpF NF c1 cur) (fmul NF (sigF NF c1 a) (adj_w NF fn a cur))))
+                     (set_bp c2 cur (fadd NF (bpF NF c2 cur) (fmul NF (sigF NF c2 a) (adj_w NF fn a cur))))).
         { apply set_bp_rsig_in; [exact H1|]. intros _. rewrite (sigF_rsig P1 c1 c2 a H1).
           destruct H1 as (_ & _ & H3). now rewrite (H3 _ (HP1 _ Hc)). }
+        destruct (IH P1 _ _ Hpre S1 (HP1 _ Hc)) as (P2 & HP2 & R).
         exists P2. split; [|exact R]. auto.
       * apply IH; [|exact S|exact Hc].
         apply set_bp_rsig_in; [exact H|]. intros _. rewrite (sigF_rsig P s1 s2 a H).
@@ -390,7 +390,7 @@ Proof.
   - exists P. auto.
   - assert (Ed : fs_done s1 = fs_done s2) by apply S. rewrite Ed.
     destruct (getB (fs_done s2) cur).
-    + exists P. simpl. repeat split; auto; try apply H. apply set_inact_rstrong. exact S.
+    + exists P. simpl. split; [auto|]. split; [exact H|]. split; [apply set_inact_rstrong; exact S|reflexivity].
     + set (t1 := set_bp (set_inact s1 cur true) cur (fzero NF)).
       set (t2 := set_bp (set_inact s2 cur true) cur (fzero NF)).
       assert (Ht : rsig (fun j => P j \/ j = cur) t1 t2) by (apply set_bp_rsig_new; exact H).
@@ -419,20 +419,21 @@ Proof.
         (split; [apply set_sig_rsig; exact He|split; [exact Se|reflexivity]]).
 Qed.
 
+Opaque rec_node.
 Lemma rec_outputs_rel is : forall P last s1 s2,
   rsig P s1 s2 -> rstrong s1 s2 ->
-  exists P', (forall j, P j -> P' j) /\
+  exists P' : nat -> Prop, (forall j, P j -> P' j) /\
     rsig P' (fst (rec_outputs NF act fn is last s1)) (fst (rec_outputs NF act fn is last s2)) /\
     rstrong (fst (rec_outputs NF act fn is last s1)) (fst (rec_outputs NF act fn is last s2)) /\
     snd (rec_outputs NF act fn is last s1) = snd (rec_outputs NF act fn is last s2).
 Proof.
-  induction is as [|i rest IH]; intros P last s1 s2 H S; simpl.
+  induction is as [|i rest IH]; intros P last s1 s2 H St; simpl.
   - exists P. auto.
-  - destruct (rec_node_rel (S (f_total fn)) P s1 s2 (f_sensor fn + i) H S) as (P1 & HP1 & H1 & S1 & E1).
+  - destruct (rec_node_rel (S (f_total fn)) P s1 s2 (f_sensor fn + i) H St) as (P1 & HP1 & H1 & S1 & E1).
     destruct (rec_node NF act fn (S (f_total fn)) s1 (f_sensor fn + i)) as [c1 r1].
     destruct (rec_node NF act fn (S (f_total fn)) s2 (f_sensor fn + i)) as [c2 r2].
     simpl in H1, S1, E1. subst r2.
-    destruct r1 as [[|]| | | | |]; simpl; try (exists P1; auto).
+    destruct r1 as [[|]| | | | |]; simpl; try solve [exists P1; auto].
     destruct (IH P1 true c1 c2 H1 S1) as (P2 & HP2 & R). exists P2. split; [|exact R]. auto.
 Qed.
 
@@ -449,6 +450,7 @@ Proof.
   - apply rstrong_weak. exact S2.
 Qed.
 
+Transparent rec_node.
 (* ----- lengths never change ----- *)
 Ltac flens_tac := unfold flens; simpl; rewrite ?upd_length; reflexivity.
 
@@ -533,6 +535,7 @@ Proof.
     unfold set_sig, set_inact, set_done, set_bp; flens_tac.
 Qed.
 
+Opaque rec_node.
 Lemma flens_rec_outputs is : forall last s, flens (fst (rec_outputs NF act fn is last s)) = flens s.
 Proof.
   induction is as [|i rest IH]; intros last s; simpl; [reflexivity|].
@@ -541,6 +544,7 @@ Proof.
   destruct r as [[|]| | | | |]; simpl; try exact H. rewrite IH. exact H.
 Qed.
 
+Transparent rec_node.
 Lemma flens_fast_recursive s : flens (fst (fast_recursive NF act fn s)) = flens s.
 Proof. unfold fast_recursive, rec_init. rewrite flens_rec_outputs. apply flens_fold_rec_init. Qed.
 
@@ -587,6 +591,276 @@ Proof.
   pose proof (flens_fast_step s1 o) as F1. pose proof (flens_fast_step s2 o) as F2.
   destruct (fast_step NF act fn s1 o) as [s1' r1], (fast_step NF act fn s2 o) as [s2' r2]. simpl in *.
   subst r2. rewrite (fast_outputs_respects s1' s2' Hr). f_equal. apply IH; congruence.
+Qed.
+
+
+(* ----- invariants of every reachable state ----- *)
+Definition bias_ok (s : fstate) : Prop := forall j, j < f_bias fn -> sigF NF s j = fone NF.
+Definition last_low (s : fstate) : Prop := forall j, j < f_sensor fn -> getF NF (fs_last s) j = fzero NF.
+Definition finv (s : fstate) : Prop := flens s = full_lens /\ bias_ok s /\ last_low s.
+
+Lemma bias_le_sensor : f_bias fn <= f_sensor fn.
+Proof. unfold f_sensor. lia. Qed.
+
+Lemma sig_fold_conn cs : forall s, fs_sig (fold_left (conn_step NF) cs s) = fs_sig s.
+Proof. induction cs as [|c rest IH]; intros s; simpl; [reflexivity|]. now rewrite IH. Qed.
+Lemma sig_fs_activate is : forall s, fs_sig (fst (fs_activate NF act fn is s)) = fs_sig s.
+Proof.
+  induction is as [|i rest IH]; intros s; simpl; [reflexivity|].
+  destruct (act _ _); simpl; try reflexivity. now rewrite IH.
+Qed.
+Lemma sig_fs_commit is j : (forall i, In i is -> i <> j) -> forall s, sigF NF (fs_commit NF is s) j = sigF NF s j.
+Proof.
+  induction is as [|i rest IH]; intros Hn s; simpl; [reflexivity|].
+  rewrite IH by (intros k Hk; apply Hn; simpl; auto).
+  unfold commit_one, sigF, set_bp, set_sig, getF. simpl. apply nth_upd_other. apply Hn. simpl. auto.
+Qed.
+Lemma sig_fs_commit_delta d is j : (forall i, In i is -> i <> j) ->
+  forall r s, sigF NF (fst (fs_commit_delta NF d is r s)) j = sigF NF s j.
+Proof.
+  induction is as [|i rest IH]; intros Hn r s; simpl; [reflexivity|].
+  rewrite IH by (intros k Hk; apply Hn; simpl; auto).
+  unfold commit_one, sigF, set_bp, set_sig, getF. simpl. apply nth_upd_other. apply Hn. simpl. auto.
+Qed.
+
+Lemma sig_forward_step d s j : j < f_sensor fn -> sigF NF (fst (forward_step NF act fn d s)) j = sigF NF s j.
+Proof.
+  intros Hj. unfold forward_step.
+  assert (Hn : forall i, In i (neuron_range fn) -> i <> j).
+  { intros i Hi. apply neuron_range_from_sensor in Hi. unfold from_sensor in Hi. lia. }
+  pose proof (sig_fs_activate (neuron_range fn) (fold_left (conn_step NF) (f_conns fn) s)) as H.
+  rewrite sig_fold_conn in H.
+  destruct (fs_activate NF act fn (neuron_range fn) (fold_left (conn_step NF) (f_conns fn) s)) as [a r].
+  simpl in H.
+  assert (Ha : sigF NF a j = sigF NF s j) by (unfold sigF; now rewrite H).
+  destruct r; simpl; try exact Ha.
+  destruct (fleb NF d (fzero NF)); simpl.
+  - now rewrite sig_fs_commit.
+  - pose proof (sig_fs_commit_delta d (neuron_range fn) j Hn true a) as H2.
+    destruct (fs_commit_delta NF d (neuron_range fn) true a) as [c q]. simpl in *. congruence.
+Qed.
+
+Lemma last_low_of_rec_fields s t : rec_fields t = rec_fields s -> last_low s -> last_low t.
+Proof. unfold rec_fields, last_low. intros E H j Hj. injection E as _ _ E. rewrite E. apply H. exact Hj. Qed.
+
+Lemma finv_forward_step d s : finv s -> finv (fst (forward_step NF act fn d s)).
+Proof.
+  intros (L & B & W). split; [rewrite flens_forward_step; exact L|]. split.
+  - intros j Hj. rewrite sig_forward_step by (pose proof bias_le_sensor; lia). apply B. exact Hj.
+  - eapply last_low_of_rec_fields; [apply rec_fields_forward_step|exact W].
+Qed.
+
+Lemma finv_ff_loop it : forall last s, finv s -> finv (fst (ff_loop NF act fn it last s)).
+Proof.
+  induction it as [|it IH]; intros last s H; simpl; [exact H|].
+  pose proof (finv_forward_step (fzero NF) s H) as H1.
+  destruct (forward_step NF act fn (fzero NF) s) as [a r]. simpl in H1. destruct r; simpl; auto.
+Qed.
+Lemma finv_relax_loop it d : forall last s, finv s -> finv (fst (relax_loop NF act fn it d last s)).
+Proof.
+  induction it as [|it IH]; intros last s H; simpl; [exact H|].
+  pose proof (finv_forward_step d s H) as H1.
+  destruct (forward_step NF act fn d s) as [a r]. simpl in H1. destruct r as [[|]| | | | |]; simpl; auto.
+Qed.
+
+Lemma finv_fast_load x s : finv s -> finv (fst (fast_load NF fn x s)).
+Proof.
+  intros (L & B & W). split; [rewrite flens_fast_load; exact L|].
+  unfold fast_load. destruct (length x =? f_in fn); simpl; [|auto].
+  generalize (seq 0 (f_in fn)). intros is. revert s L B W.
+  induction is as [|i rest IH]; intros s L B W; simpl; [auto|].
+  apply IH.
+  - rewrite <- L. unfold set_sig. unfold flens. simpl. now rewrite upd_length.
+  - intros j Hj. unfold sigF, set_sig, getF. simpl. rewrite nth_upd_other by lia. apply B. exact Hj.
+  - exact W.
+Qed.
+
+Lemma finv_fast_flush s : finv s -> finv (fst (fast_flush NF fn s)).
+Proof.
+  intros (L & B & W). split; [rewrite flens_fast_flush; exact L|].
+  unfold fast_flush. simpl.
+  assert (G : forall is s, (forall i, In i is -> f_bias fn <= i) -> bias_ok s -> last_low s ->
+              bias_ok (fold_left (flush_one NF) is s) /\ last_low (fold_left (flush_one NF) is s)).
+  { induction is as [|i rest IH]; intros s0 Hi B0 W0; simpl; [auto|].
+    apply IH; [intros k Hk; apply Hi; simpl; auto| |exact W0].
+    intros j Hj. unfold flush_one, sigF, set_bp, set_sig, getF. simpl.
+    rewrite nth_upd_other; [apply B0; exact Hj|]. specialize (Hi i (or_introl eq_refl)). lia. }
+  apply G; auto. intros i Hi. apply in_seq in Hi. lia.
+Qed.
+
+(* recursion: nodes already marked activated keep their mark and their signal; lastActivation is not written *)
+Definition call_keep (call : fstate -> nat -> fstate * res bool) : Prop :=
+  forall s a, fs_last (fst (call s a)) = fs_last s /\
+              forall j, getB (fs_done s) j = true ->
+                        getB (fs_done (fst (call s a))) j = true /\ sigF NF (fst (call s a)) j = sigF NF s j.
+
+Lemma rec_loop_keep call cur (Hc : call_keep call) adjs : forall s,
+  fs_last (fst (rec_loop NF fn call cur adjs s)) = fs_last s /\
+  forall j, getB (fs_done s) j = true ->
+            getB (fs_done (fst (rec_loop NF fn call cur adjs s))) j = true /\
+            sigF NF (fst (rec_loop NF fn call cur adjs s)) j = sigF NF s j.
+Proof.
+  induction adjs as [|a rest IH]; intros s; simpl; [auto|].
+  destruct (getB (fs_inact s) a).
+  - apply (IH (set_bp s cur _)).
+  - destruct (negb (getB (fs_done s) a)).
+    + destruct (Hc s a) as [HL HK]. destruct (call s a) as [c r]. simpl in HL, HK.
+      destruct r as [[|]| | | | |]; simpl; try (split; [exact HL|exact HK]).
+      destruct (IH (set_bp c cur (fadd NF (bpF NF c cur) (fmul NF (sigF NF c a) (adj_w NF fn a cur))))) as [HL2 HK2].
+      split; [rewrite HL2; exact HL|].
+      intros j Hj. destruct (HK j Hj) as [D1 S1]. destruct (HK2 j D1) as [D2 S2]. split; [exact D2|].
+      rewrite S2. exact S1.
+    + apply (IH (set_bp s cur _)).
+Qed.
+
+Lemma rec_node_keep fuel : call_keep (rec_node NF act fn fuel).
+Proof.
+  induction fuel as [|f IH]; intros s cur; simpl; [auto|].
+  destruct (getB (fs_done s) cur) eqn:Ed; simpl; [auto|].
+  destruct (rec_loop_keep (rec_node NF act fn f) cur IH (radj fn cur) (set_bp (set_inact s cur true) cur (fzero NF)))
+    as [HL HK].
+  destruct (rec_loop NF fn (rec_node NF act fn f) cur (radj fn cur) (set_bp (set_inact s cur true) cur (fzero NF))) as [c r].
+  simpl in HL, HK.
+  destruct r; simpl; try (split; [exact HL|exact HK]).
+  assert (G : forall v,
+    fs_last (set_sig (set_inact (set_done (if 0 <? f_bias fn
+               then set_bp c cur (fadd NF (bpF NF c cur) (getF NF (f_biases fn) cur)) else c) cur true) cur false) cur v)
+      = fs_last s /\
+    forall j, getB (fs_done s) j = true ->
+      getB (fs_done (set_sig (set_inact (set_done (if 0 <? f_bias fn
+               then set_bp c cur (fadd NF (bpF NF c cur) (getF NF (f_biases fn) cur)) else c) cur true) cur false) cur v)) j = true /\
+      sigF NF (set_sig (set_inact (set_done (if 0 <? f_bias fn
+               then set_bp c cur (fadd NF (bpF NF c cur) (getF NF (f_biases fn) cur)) else c) cur true) cur false) cur v) j
+        = sigF NF s j).
+  { intros v. split.
+    - destruct (0 <? f_bias fn); simpl; exact HL.
+    - intros j Hj. destruct (HK j Hj) as [D1 S1].
+      assert (Hne : cur <> j) by (intros E; subst j; congruence).
+      split.
+      + destruct (0 <? f_bias fn); unfold getB; simpl; rewrite nth_upd_other by exact Hne; exact D1.
+      + destruct (0 <? f_bias fn); unfold sigF, getF; simpl; rewrite nth_upd_other by exact Hne; exact S1. }
+  destruct (act _ _); simpl; apply G.
+Qed.
+
+Opaque rec_node.
+Lemma rec_outputs_keep is : forall last s,
+  fs_last (fst (rec_outputs NF act fn is last s)) = fs_last s /\
+  forall j, getB (fs_done s) j = true -> sigF NF (fst (rec_outputs NF act fn is last s)) j = sigF NF s j.
+Proof.
+  induction is as [|i rest IH]; intros last s; simpl; [auto|].
+  destruct (rec_node_keep (S (f_total fn)) s (f_sensor fn + i)) as [HL HK].
+  destruct (rec_node NF act fn (S (f_total fn)) s (f_sensor fn + i)) as [c r]. simpl in HL, HK.
+  destruct r as [[|]| | | | |]; simpl; try (split; [exact HL|intros j Hj; apply HK; exact Hj]).
+  destruct (IH true c) as [HL2 HK2]. split; [rewrite HL2; exact HL|].
+  intros j Hj. destruct (HK j Hj) as [D1 S1]. rewrite (HK2 j D1). exact S1.
+Qed.
+Transparent rec_node.
+
+Lemma rec_init_fields is : forall s,
+  let s' := fold_left (rec_init_one NF fn) is s in
+  fs_sig s' = fs_sig s /\
+  fs_done s' = fold_left (fun l i => upd i (i <? f_sensor fn) l) is (fs_done s) /\
+  (forall j, j < f_sensor fn -> getF NF (fs_last s') j = getF NF (fs_last s) j).
+Proof.
+  induction is as [|i rest IH]; intros s; simpl; [auto|].
+  destruct (IH (rec_init_one NF fn s i)) as (E1 & E2 & E3).
+  split; [|split].
+  - rewrite E1. unfold rec_init_one. destruct (f_sensor fn <=? i); reflexivity.
+  - rewrite E2. unfold rec_init_one. destruct (f_sensor fn <=? i); reflexivity.
+  - intros j Hj. rewrite E3 by exact Hj. unfold rec_init_one.
+    destruct (f_sensor fn <=? i) eqn:E; [|reflexivity].
+    apply Nat.leb_le in E. unfold set_last, getF. simpl. apply nth_upd_other. lia.
+Qed.
+
+Lemma finv_fast_recursive s : finv s -> finv (fst (fast_recursive NF act fn s)).
+Proof.
+  intros (L & B & W). split; [rewrite flens_fast_recursive; exact L|].
+  unfold fast_recursive, rec_init.
+  destruct (rec_init_fields (seq 0 (f_total fn)) s) as (E1 & E2 & E3).
+  set (s0 := fold_left (rec_init_one NF fn) (seq 0 (f_total fn)) s) in *.
+  destruct (rec_outputs_keep (seq 0 (f_out fn)) false s0) as [HL HK].
+  assert (D : forall j, j < f_sensor fn -> getB (fs_done s0) j = true).
+  { intros j Hj. unfold getB. rewrite E2.
+    rewrite (fold_upd_at (fun i => i <? f_sensor fn) false j).
+    - apply Nat.ltb_lt. exact Hj.
+    - apply seq_NoDup.
+    - apply in_seq. lia.
+    - unfold flens, full_lens in L. injection L as ? ? ? ? ?. lia. }
+  split.
+  - intros j Hj. rewrite HK by (apply D; pose proof bias_le_sensor; lia).
+    unfold sigF. rewrite E1. apply B. exact Hj.
+  - intros j Hj. rewrite HL, E3 by exact Hj. apply W. exact Hj.
+Qed.
+
+Lemma finv_fast_step s o : finv s -> finv (fst (fast_step NF act fn s o)).
+Proof.
+  intros H. destruct o; simpl.
+  - apply finv_fast_load. exact H.
+  - apply finv_ff_loop. exact H.
+  - apply finv_fast_recursive. exact H.
+  - apply finv_relax_loop. exact H.
+  - apply finv_fast_flush. exact H.
+Qed.
+
+Lemma finv_fast_run h : forall s, finv s -> finv (fast_run NF act fn s h).
+Proof.
+  unfold fast_run. induction h as [|o rest IH]; intros s H; simpl; [exact H|]. apply IH. apply finv_fast_step. exact H.
+Qed.
+
+Lemma finv_init : finv (fast_init NF fn).
+Proof.
+  pose proof bias_le_sensor as HB.
+  unfold finv, fast_init. split; [|split].
+  - unfold flens, full_lens. simpl. rewrite app_length, !repeat_length. f_equal; f_equal; f_equal; f_equal; lia.
+  - intros j Hj. unfold sigF, getF. simpl. rewrite app_nth1 by (rewrite repeat_length; exact Hj). apply nth_repeat_lt. exact Hj.
+  - intros j Hj. unfold getF. simpl. apply nth_repeat.
+Qed.
+
+(* ----- Flush brings every reachable state back to (an equivalent of) the initial one ----- *)
+Lemma flush_fields is : forall s,
+  fs_sig (fold_left (flush_one NF) is s) = fold_left (fun l i => upd i (fzero NF) l) is (fs_sig s) /\
+  fs_bp (fold_left (flush_one NF) is s) = fold_left (fun l i => upd i (fzero NF) l) is (fs_bp s) /\
+  fs_last (fold_left (flush_one NF) is s) = fs_last s.
+Proof.
+  induction is as [|i rest IH]; intros s; simpl; [auto|]. apply (IH (flush_one NF s i)).
+Qed.
+
+Theorem fast_flush_init s : finv s -> feqv (fst (fast_flush NF fn s)) (fast_init NF fn).
+Proof.
+  intros (L & B & W). pose proof bias_le_sensor as HB.
+  unfold flens, full_lens in L. injection L as L1 L2 L3 L4 L5.
+  unfold fast_flush. simpl.
+  destruct (flush_fields (seq (f_bias fn) (f_total fn - f_bias fn)) s) as (E1 & E2 & E3).
+  assert (Hin : forall j, f_bias fn <= j < f_total fn -> In j (seq (f_bias fn) (f_total fn - f_bias fn))).
+  { intros j Hj. apply in_seq. lia. }
+  unfold feqv, rsig, rweak, bpF. rewrite E1, E2, E3. unfold fast_init. simpl.
+  repeat split.
+  - apply nth_ext with (d := fzero NF) (d' := fzero NF).
+    + rewrite fold_upd_length, app_length, !repeat_length. lia.
+    + intros j Hj. rewrite fold_upd_length in Hj.
+      destruct (Nat.lt_ge_cases j (f_bias fn)) as [Hlt|Hge].
+      * rewrite fold_upd_below by (intros i Hi E; apply in_seq in Hi; lia).
+        rewrite app_nth1 by (rewrite repeat_length; exact Hlt). rewrite nth_repeat_lt by exact Hlt. apply B. exact Hlt.
+      * rewrite (fold_upd_at (fun _ => fzero NF)); [|apply seq_NoDup|apply Hin; lia|lia].
+        rewrite app_nth2 by (rewrite repeat_length; exact Hge). now rewrite nth_repeat.
+  - rewrite fold_upd_length, repeat_length. exact L2.
+  - intros j Hj. unfold from_sensor in Hj. unfold getF.
+    destruct (Nat.lt_ge_cases j (f_total fn)) as [Hlt|Hge].
+    + rewrite (fold_upd_at (fun _ => fzero NF)); [|apply seq_NoDup|apply Hin; lia|lia]. now rewrite nth_repeat.
+    + rewrite !nth_overflow; [reflexivity|rewrite repeat_length; exact Hge|rewrite fold_upd_length; lia].
+  - intros j Hj. unfold getF. rewrite nth_repeat. apply W. exact Hj.
+Qed.
+
+(* ----- C13, fast solver ----- *)
+Theorem fast_flush_fresh (h ops : list (op F)) :
+  fast_trace NF act fn (fst (fast_flush NF fn (fast_run NF act fn (fast_init NF fn) h))) ops =
+  fast_trace NF act fn (fast_init NF fn) ops.
+Proof.
+  pose proof (finv_fast_run h _ finv_init) as HI.
+  apply fast_trace_respects.
+  - apply fast_flush_init. exact HI.
+  - rewrite flens_fast_flush. apply HI.
+  - apply finv_init.
 Qed.
 
 End FlushFast.
